@@ -27,6 +27,8 @@ ROOT = os.path.dirname(os.path.dirname(os.path.abspath(__file__)))
 COQ = os.path.join(ROOT, "coq")
 BUILD = os.path.join(ROOT, "build")
 REPO = os.environ.get("VERIF_REPO", "/repo")
+ALT = os.path.realpath(REPO) != "/repo"          # checking a scratch worktree (mutation self-test)
+OUT = os.environ.get("VERIF_OUT") or (os.path.join(BUILD, "alt-out") if ALT else ROOT)
 GOENV = dict(os.environ, GOFLAGS="-mod=mod", GOPROXY="off", GOSUMDB="off", GOTOOLCHAIN="local",
              CGO_ENABLED=os.environ.get("CGO_ENABLED", "0"))
 
@@ -103,7 +105,7 @@ def gen_and_build(pid, cfg):
     res = {"ok": False, "log": "", "failed": None}
     with Lock("coq"):
         g = os.path.join(ROOT, "bin", "gen")
-        if os.path.exists(g):
+        if os.path.exists(g) and (not ALT or os.environ.get("VERIF_GEN") == "1"):
             rc, out = run([g], 600, env=GOENV)
             if rc != 0:
                 res["log"] = out
@@ -234,8 +236,14 @@ def build_harness(pid):
             shutil.copy(os.path.join(REPO, "go.sum"), os.path.join(h, "go.sum"))
         except OSError:
             pass
-        tags = "verif"
-        return run(["go", "build", "-tags", tags, "-o", os.path.join(BUILD, "implrun_" + pid), "./cmd/impl_" + pid.lower()],
+        cmd = ["go", "build", "-tags", "verif"]
+        if ALT:
+            tagname = hashlib.sha1(REPO.encode()).hexdigest()[:8]
+            mf = os.path.join(BUILD, "gomod_%s.mod" % tagname)
+            open(mf, "w").write(open(os.path.join(h, "go.mod")).read().replace("=> /repo", "=> " + REPO))
+            shutil.copy(os.path.join(REPO, "go.sum"), mf[:-4] + ".sum")
+            cmd += ["-modfile", mf]
+        return run(cmd + ["-o", os.path.join(BUILD, "implrun_" + pid + ("_alt" if ALT else "")), "./cmd/impl_" + pid.lower()],
                    1200, cwd=h, env=GOENV)
 
 
@@ -243,7 +251,7 @@ def run_impl(pid, seed, n, tier, outdir, timeout, mode="gen", replay=None):
     if os.path.exists(outdir):
         shutil.rmtree(outdir)
     os.makedirs(outdir)
-    cmd = [os.path.join(BUILD, "implrun_" + pid), pid, "-seed", str(seed), "-n", str(n), "-tier", tier,
+    cmd = [os.path.join(BUILD, "implrun_" + pid + ("_alt" if ALT else "")), pid, "-seed", str(seed), "-n", str(n), "-tier", tier,
            "-out", outdir, "-mode", mode, "-corpus", os.path.join(ROOT, "corpus", pid)]
     if replay:
         cmd += ["-replay", replay]
@@ -299,7 +307,7 @@ def load_cases(outdir):
 def one_round(pid, cfg, seed, n, tier, tag, timeout):
     """Runs implementation + judge once.  Returns dict with cases, oracle failures,
     mismatches, direct findings, errors."""
-    outdir = os.path.join(BUILD, "cases", "%s-%s" % (pid, tag))
+    outdir = os.path.join(BUILD, "cases", "%s-%s%s" % (pid, tag, "-alt" if ALT else ""))
     rc, out = run_impl(pid, seed, n, tier, outdir, timeout)
     r = {"n": n, "seed": seed, "outdir": outdir, "impl_rc": rc, "impl_log": out[-3000:], "cases": [], "oracle": [], "mismatch": [],
          "direct": [], "errors": [], "meta": {}}
@@ -436,7 +444,7 @@ def main(argv=None):
             step = max(1, len(r["cases"]) // 5)
             samples = [r["cases"][i]["desc"] for i in range(0, len(r["cases"]), step)][:5]
 
-    os.makedirs(os.path.join(ROOT, "replay"), exist_ok=True)
+    os.makedirs(os.path.join(OUT, "replay"), exist_ok=True)
     lines = []
     for cl, k in known_classes.items():
         if cl in seen_known:
@@ -451,7 +459,7 @@ def main(argv=None):
               "n": r["n"], "tier": tier, "case": c,
               "what": c.get("direct") or "the implementation's observation violates the property oracle (judge code 2)",
               "replay_cmd": "bin/check %s --replay <this file>" % pid}
-        path = os.path.join(ROOT, "replay", "%s-%s-%s.json" % (pid, seed, re.sub(r'[^A-Za-z0-9_.-]+', '_', cl)[:40] or "case"))
+        path = os.path.join(OUT, "replay", "%s-%s-%s.json" % (pid, seed, re.sub(r'[^A-Za-z0-9_.-]+', '_', cl)[:40] or "case"))
         json.dump(rp, open(path, "w"), indent=1, default=str)
         lines.append("VIOLATION property=%s replay=%s" % (pid, path))
         exit_code = 1
@@ -473,7 +481,7 @@ def main(argv=None):
             rp = {"property": pid, "kind": "no-failing-input-found", "seed": seed, "n": n, "tier": tier,
                   "no_longer_checks": why, "build_log": b.get("log", "")[-3000:],
                   "mismatches": [c for r in rounds for c in r["mismatch"]][:20]}
-            path = os.path.join(ROOT, "replay", "%s-%s-unproved.json" % (pid, seed))
+            path = os.path.join(OUT, "replay", "%s-%s-unproved.json" % (pid, seed))
             json.dump(rp, open(path, "w"), indent=1, default=str)
             lines.append("VIOLATION property=%s replay=%s no-failing-input-found" % (pid, path))
             exit_code = 1
@@ -501,8 +509,8 @@ def main(argv=None):
         "wall_s": round(time.time() - t0, 1),
         "violations": sum(1 for l in lines if l.startswith("VIOLATION")),
     }
-    os.makedirs(os.path.join(ROOT, "evidence"), exist_ok=True)
-    json.dump(ev, open(os.path.join(ROOT, "evidence", pid + ".json"), "w"), indent=1, default=str)
+    os.makedirs(os.path.join(OUT, "evidence"), exist_ok=True)
+    json.dump(ev, open(os.path.join(OUT, "evidence", pid + ".json"), "w"), indent=1, default=str)
     for r in rounds:
         shutil.rmtree(r["outdir"], ignore_errors=True)
     for l in lines:
